@@ -372,6 +372,9 @@ fn exec_redirected(t: &mut Tape, st: &mut Stats) -> Result<(), String> {
     let host_orig = t.below(2) == 1;
     let despite_first = t.below(2) == 1;
     let policy = if t.below(2) == 0 { RedirectAuthHeaders::Never } else { RedirectAuthHeaders::SameHost };
+    // where the redirect leads, and what the caller adds to the followed flow before its request is made
+    let cross_host = t.below(2) == 1;
+    let added = t.below(6);
     st.evals(1);
     let takes = needs_body(&method);
     let body_first = takes || despite_first;
@@ -379,7 +382,11 @@ fn exec_redirected(t: &mut Tape, st: &mut Stats) -> Result<(), String> {
         st.class("skipped_invalid");
         return Ok(());
     }
-    let what = format!("{} (own content-length {}, explicit host {}, despite {}) -> {} -> followed request", method, own_cl, host_orig, despite_first, status);
+    const ADDED: [&str; 6] = ["nothing", "content-length: abc", "content-length: 5", "host: extra.test", "x-a: b", "content-length: 5 + send-body-despite-method"];
+    let what = format!(
+        "{} (own content-length {}, explicit host {}, despite {}) -> {} to {} -> followed request, caller adds {}",
+        method, own_cl, host_orig, despite_first, status, if cross_host { "another host" } else { "the same host" }, ADDED[added]
+    );
     st.describe(|| json!({"stage": "redirected", "case": what}));
     let mut b = Request::builder().method(method.clone()).uri("http://u.test/a/b?c=1").header("cookie", "k=v").header("authorization", "t");
     if own_cl {
@@ -392,13 +399,17 @@ fn exec_redirected(t: &mut Tape, st: &mut Stats) -> Result<(), String> {
     if despite_first && !takes {
         f.send_body_despite_method();
     }
-    let head = format!("HTTP/1.1 {} R\r\nLocation: /moved\r\nContent-Length: 0\r\n\r\n", status);
+    let head = format!(
+        "HTTP/1.1 {} R\r\nLocation: {}\r\nContent-Length: 0\r\n\r\n",
+        status,
+        if cross_host { "http://other.test/moved" } else { "/moved" }
+    );
     let (_, _, term) = exchange(f, if own_cl { 4 } else { 3 }, head.as_bytes(), b"").map_err(|e| format!("{}: {}", what, e))?;
     let mut red = match term {
         Terminal::Redirect(r) => r,
         Terminal::Cleanup(_) => return Err(format!("{}: no redirect state", what)),
     };
-    let nf = match red.as_new_flow(policy).map_err(|e| format!("{}: as_new_flow: {:?}", what, e))? {
+    let mut nf = match red.as_new_flow(policy).map_err(|e| format!("{}: as_new_flow: {:?}", what, e))? {
         Some(nf) => nf,
         None => {
             st.class("redirect_not_followed");
@@ -406,14 +417,63 @@ fn exec_redirected(t: &mut Tape, st: &mut Stats) -> Result<(), String> {
         }
     };
     let m2 = nf.method().clone();
+    // every followed method takes no body (GET, HEAD, OPTIONS): the validity table applied to (inherited - suppressed) + added
+    let add = |nf: &mut Flow<(), ureq_proto::client::flow::state::Prepare>, k: &str, v: &str| nf.header(k, v).map_err(|e| format!("{}: Flow::header: {:?}", what, e));
+    let reject = match added {
+        1 => {
+            add(&mut nf, "content-length", "abc")?;
+            true
+        }
+        2 => {
+            add(&mut nf, "content-length", "5")?;
+            true
+        }
+        3 => {
+            add(&mut nf, "host", "extra.test")?;
+            host_orig
+        }
+        4 => {
+            add(&mut nf, "x-a", "b")?;
+            false
+        }
+        5 => {
+            add(&mut nf, "content-length", "5")?;
+            nf.send_body_despite_method();
+            false
+        }
+        _ => false,
+    };
     let mut sr = nf.proceed();
     let mut big = [0u8; 1024];
+    if reject {
+        // invalid because of what the caller added to the followed flow: refused on every attempt, never ready
+        for round in 0..2 {
+            for size in [0usize, 1, 1024] {
+                if let Ok(n) = sr.write(&mut big[..size]) {
+                    return Err(format!("{}: invalid followed request accepted ({} bytes written into {} bytes, attempt {})", what, n, size, round));
+                }
+                if sr.can_proceed() {
+                    return Err(format!("{}: invalid followed request became ready", what));
+                }
+            }
+        }
+        if let Ok(Some(_)) = sr.proceed() {
+            return Err(format!("{}: invalid followed request advanced", what));
+        }
+        st.class("redirected_rejected");
+        st.count_nontrivial(1);
+        return Ok(());
+    }
     match sr.write(&mut big) {
         Err(e) => return Err(format!("{}: the followed {} request is valid (no body, inherited content-length suppressed) but was refused: {:?}", what, m2, e)),
         Ok(n) => {
             let h = parse_request_head(&big[..n]).map_err(|e| format!("{}: followed head invalid: {}", what, e))?;
             if h.method != m2.as_str() || h.target != "/moved" {
                 return Err(format!("{}: followed head is {} {}", what, h.method, h.target));
+            }
+            let hosts = h.fields.iter().filter(|(k, _)| k.eq_ignore_ascii_case("host")).count();
+            if hosts != 1 {
+                return Err(format!("{}: followed head carries {} Host fields", what, hosts));
             }
             if !sr.can_proceed() {
                 return Err(format!("{}: followed head complete but not ready", what));
@@ -459,7 +519,8 @@ original, two added, non-textual} x Content-Length in {none, 5, 0 (added), origi
 non-UTF-8, > u64::MAX} x Transfer-Encoding in {none, chunked, Chunked, two fields chunked + gzip} x send-body-despite-method {no, yes} = 25200 cells on \
 Flow; 'call': versions x methods x Host {none, one, two, non-textual} x Content-Length classes x TE x {without_body, with_body} = 12960 \
 cells; 'redirected': requests produced by following a redirect (the effective headers are the original ones minus the suppressed \
-names) must be accepted. Oracle = validity table: reject iff version not 1.0/1.1, method undefined for the version, > 1 Host, > 1 Content-Length, \
+names) to the same or another host must be accepted, also with an explicit inherited Host, and what the caller adds to the followed flow \
+(non-numeric Content-Length, Content-Length on a body-less method, a second Host) must be judged by the same table (5760 cells). Oracle = validity table: reject iff version not 1.0/1.1, method undefined for the version, > 1 Host, > 1 Content-Length, \
 non-numeric Content-Length, body (framing header / with-body constructor / body method on Flow) on a method that takes none \
 without despite, or body method without body. Rejected => every write (0-byte, 1-byte, ample, repeated) is Err, never ready, \
 advancing yields nothing; accepted => ample write emits a head that parses strictly with the right method/target/version and one \
@@ -477,8 +538,8 @@ and accepted cells with despite-method or both framing headers; distinct by enum
         },
         EnumDef {
             name: "redirected",
-            count: |_t: Tier| 6 * 5 * 2 * 2 * 2 * 2,
-            tape: |_, idx| radix(idx, &[6, 5, 2, 2, 2, 2]),
+            count: |_t: Tier| 6 * 5 * 2 * 2 * 2 * 2 * 2 * 6,
+            tape: |_, idx| radix(idx, &[6, 5, 2, 2, 2, 2, 2, 6]),
             exhaustive: true,
             exec: Some(exec_redirected),
         },
